@@ -350,6 +350,9 @@ class ModelCacheMixin:
             # we set allow_unconstrained to False because we expect all returned values for e are returned by Z3,
             # instead of some arbitrarily assigned concrete values.
             cached = self._get_solutions(e, extra_constraints=extra_constraints, allow_unconstrained=False)
+            if len(cached) != len(self._get_solutions(e, extra_constraints=extra_constraints)):
+                # some cached models do not assign all variables of e, so the values above are incomplete
+                cached = []
 
         if len(cached) > 0:
 
@@ -368,6 +371,9 @@ class ModelCacheMixin:
         max_exhausted = self._max_signed_exhausted if signed else self._max_exhausted
         if len(extra_constraints) == 0 and (e.hash() in self._eval_exhausted or e.hash() in max_exhausted):
             cached = self._get_solutions(e, extra_constraints=extra_constraints, allow_unconstrained=False)
+            if len(cached) != len(self._get_solutions(e, extra_constraints=extra_constraints)):
+                # some cached models do not assign all variables of e, so the values above are incomplete
+                cached = []
 
         if len(cached) > 0:
 
